@@ -25,7 +25,7 @@ CHECKS = {
     "C10": (
         "progmc c10",
         "bounded-exhaustive enumeration of (container form, element type, length, access kind, index type, index value) and (sum type, placement, held variant, requested variant) cases, each compiled by the real CLI and executed in its own process, against a reference model of in-range access and of the abort behaviour",
-        "10 container forms (array, slice, ^array, ^mut array, ^^array, slice in a struct field, ^slice, outer and inner level of a nested array, array in a struct field) x 4 element types (u8, i32, i64, 12-byte struct) x lengths 1..4 x read / write / compound assignment / ^mut of the element x runtime indexes (through an opaque function) of type u8/u16/u32/u64/usize/u128 with values 0..n+4 and the type's boundaries 2^k-1, 2^k (u128: 2^64+k) (quick: full index alphabet for i32 x n=3, usize boundaries elsewhere; thorough: full product) and literal indexes 0..n+1; big arrays ([100]T, [20000]T, [6][16]i32) indexed with u8 / u16 / u32 values whose product with the element stride exceeds the index type; 12 sum types (enums with/without payloads and custom discriminants, optionals, ?^i32, error unions) x 5 placements x every (held, requested) pair for #unwrap incl. the 1-argument form. In range: exactly that element is read/written (whole container, the aliased array and guards printed afterwards). Out of range / wrong variant: the sentinel before the access is printed, then the message, wait status = exit 1 (not a signal), the sentinel after it never appears. Literal index >= n on a fixed array: rejected at compile time.",
+        "10 container forms (array, slice, ^array, ^mut array, ^^array, slice in a struct field, ^slice, outer and inner level of a nested array, array in a struct field) x 4 element types (u8, i32, i64, 12-byte struct) x lengths 1..4 x read / write / compound assignment / ^mut of the element x runtime indexes (through an opaque function) of type u8/u16/u32/u64/usize/u128 with values 0..n+4 and the type's boundaries 2^k-1, 2^k (u128: 2^64+k) (quick: full index alphabet for i32 x n=3, usize boundaries elsewhere; thorough: full product) and literal indexes 0..n+1; big arrays ([100]T, [20000]T, [6][16]i32) indexed with u8 / u16 / u32 values whose product with the element stride exceeds the index type; 12 sum types (enums with/without payloads and custom discriminants, optionals, ?^i32, error unions) x 5 placements x every (held, requested) pair for #unwrap incl. the 1-argument form; every 3-variant enum whose discriminants are automatic or hand-written from {0, 1, 2, 5} (at least one hand-written) x every (held, requested) pair. In range: exactly that element is read/written (whole container, the aliased array and guards printed afterwards). Out of range / wrong variant: the sentinel before the access is printed, then the message, wait status = exit 1 (not a signal), the sentinel after it never appears. Literal index >= n on a fixed array: rejected at compile time.",
         "The out-of-range access itself cannot be observed after exit; clean exit 1 for every huge index (2^31 .. 2^128-1) is what shows no wild access happened first. Arrays of zero-sized elements are not generated.",
         "§4 C10",
     ),
@@ -39,8 +39,8 @@ CHECKS = {
     "C05": (
         "progmc c05",
         "bounded-exhaustive enumeration of binding skeletons x global configurations, each compiled by the real CLI, against a reference resolver (exact set of undefined-reference lines, or printed values of every use)",
-        "Every item sequence of <= 3 items with at most one nested construct over {declare a, declare b, block, if, while, switch arm with argument a/b (with a `nil` arm and with a default arm), local lambda with parameter a/b, global function with comptime parameter a/b, comptime block with tail a/b}, nested to depth 2, a use of `a` and of `b` at every program point, x 4 global configurations (global a / b present or absent): programs with no undefined use are executed and every use must print the value of the binding the reference resolver picks; for the others the set of `undefined reference` diagnostics must be exactly the predicted lines and nothing else may be reported.",
-        "Uses inside a lambda / comptime body of a name bound in the creating function are not generated (the statement does not decide them); identifier pool {a, b}; depth 2.",
+        "Every item sequence of <= 3 items with at most one nested construct over {declare a, declare b, block, if, while, switch arm with argument a/b (with a `nil` arm and with a default arm), local lambda with parameter a/b, global function with comptime parameter a/b, comptime block with tail a/b}, nested to depth 2, a use of `a` and of `b` at every program point, x 4 global configurations (global a / b present or absent): programs with no undefined use are executed and every use must print the value of the binding the reference resolver picks; for the others the set of `undefined reference` diagnostics must be exactly the predicted lines and nothing else may be reported. The same skeletons with the two names spelled as built-in names (`u8`/`nil`, `f32`/`char`; quick: depth 1): every binding shadows the built-in, a use with no visible binding is the built-in (written in a form only valid for that resolution).",
+        "Uses inside a lambda / comptime body of a name bound in the creating function are not generated (the statement does not decide them); identifier pools {a, b}, {u8, nil}, {f32, char}; depth 2.",
         "§4 C05",
     ),
     "C11": (
@@ -60,7 +60,7 @@ CHECKS = {
     "C14": (
         "progmc c14",
         "bounded-exhaustive enumeration of (root, access chain, parenthesisation, operation) cases against a reference mutability judgement; accepted programs executed against a reference memory model with aliases",
-        "13 roots (`:=` local, `::` local, value parameter, global, ^mut / ^ pointers bound by `:=`, by `::` and as parameters, pointers to arrays of pointers indexed through the pointer) x every well-typed chain of <= 3 (thorough 4) steps from {.field, [i], explicit deref, auto-deref, #unwrap} over a struct holding a struct, an array of structs, ^mut and ^ pointers, an optional struct, and arrays of ^ / ^mut pointers, optionally parenthesised x {=, +=, take ^, take ^mut and write through it}: accepted iff the place is writable by the statement's rule; accepted programs are executed and the root, every copy, and both pointees are printed and compared with a reference memory model.",
+        "18 roots (`:=` local, `::` local, value parameter, global, ^mut / ^ pointers bound by `:=`, by `::` and as parameters, pointers to arrays of pointers indexed through the pointer, a `^In` pointer held by a `:=` / `::` / annotated `:` / annotated `::` local or a parameter, where the pointer-typed place itself may be rebound iff the local is mutable) x every well-typed chain of <= 3 (thorough 4) steps from {.field, [i], explicit deref, auto-deref, #unwrap} over a struct holding a struct, an array of structs, ^mut and ^ pointers, an optional struct, and arrays of ^ / ^mut pointers, optionally parenthesised x {=, +=, take ^, take ^mut and write through it}: accepted iff the place is writable by the statement's rule; accepted programs are executed and the root, every copy, and both pointees are printed and compared with a reference memory model.",
         "Paths that pass through immutable data and then through a ^mut pointer stored in it are not judged; pointers come only from ^e / ^mut e of a `:=` local.",
         "§4 C14",
     ),
@@ -144,8 +144,8 @@ CHECKS = {
     "C03": (
         "progmc c03",
         "bounded-exhaustive enumeration of control skeletons against a defer-stack reference interpreter, each compiled and executed by the real CLI",
-        "Every control skeleton over {defer, print, block, labelled block, while, labelled while, loop, if, break, break `l, continue, continue `l, return, .try} with <= 4 items / depth 2 (thorough: <= 5 items / depth 3: 52970 skeletons), as the body of four function forms (`-> ?i32` with a tail value; void, `-> ?void` and `-> Err!void` bodies that fall off their end; quick: the three extra forms up to 3 items), is compiled by the real CLI and run with both values of the branch-driving parameter; the printed character sequence (one letter per defer and per print) must equal the interpreter's, which checks exactly-once, LIFO, inner-before-outer and not-reached-not-run in one comparison.",
-        "Skeletons beyond the bound (7 items, depth 4) are not reached; deferred expressions are single prints.",
+        "Every control skeleton over {defer, defer whose expression contains its own conditional break of a labelled block, print, block, labelled block, while, labelled while, loop, if, break, break `l, continue, continue `l, return, .try} with <= 4 items / depth 2 (thorough: <= 5 items / depth 3: 52970 skeletons), as the body of four function forms (`-> ?i32` with a tail value; void, `-> ?void` and `-> Err!void` bodies that fall off their end; quick: the three extra forms up to 3 items), is compiled by the real CLI and run with both values of the branch-driving parameter; the printed character sequence (one letter per defer and per print) must equal the interpreter's, which checks exactly-once, LIFO, inner-before-outer and not-reached-not-run in one comparison.",
+        "Skeletons beyond the bound (7 items, depth 4) are not reached; deferred expressions are single prints or the one jump-containing form.",
         "§4 C03",
     ),
     "C09": (
